@@ -3,6 +3,7 @@ import glob
 import json
 import os
 import random
+import re
 import subprocess
 
 from harness import common, render_fixture, render_gen
@@ -37,8 +38,16 @@ Definition the_ct : ctable := %s.
 """
 
 KF_BITS = [(1, "kf_same_root_name"), (2, "kf_td_not_descended"), (4, "kf_nonetype_in_name"), (8, "kf_typing_in_name"),
-           (16, "kf_hint_collision"), (32, "kf_td_field_names")]
-BIT_PREFIX_OVERLAP, BIT_MODEL_PROP_OK, BIT_MODEL_DIFFERS = 64, 128, 256
+           (16, "kf_hint_collision"), (32, "kf_td_field_names"), (64, "kf_fwd_not_descended")]
+BIT_PREFIX_OVERLAP, BIT_MODEL_PROP_OK, BIT_MODEL_DIFFERS = 128, 256, 512
+
+
+# common.parse_bad's pattern misses pairs that Coq's printer wraps right after the opening parenthesis
+PAIR_RE = re.compile(r"\(\s*(\d+)\s*,\s*(\d+)\s*\)")
+
+
+def parse_pairs(outs):
+    return [(si + int(m.group(1)), int(m.group(2))) for si, out in outs for m in PAIR_RE.finditer(out)]
 
 
 def run_impl(work, cases):
@@ -141,13 +150,13 @@ def check_cases(ctx, cases, tag="c11"):
     header = HEADER % impl["ct"]
     terms = [r["term"] for r in impl["results"]]
     outs = common.run_coq_shards(ctx.work, tag, header, terms, "rcase", "bad verdict 0 cases", shard_size=40)
-    bad = dict(common.parse_bad(outs))
+    bad = dict(parse_pairs(outs))
     idx = sorted(bad)
     cls = {}
     if idx:
         outs2 = common.run_coq_shards(ctx.work, tag + "_cls", header, [terms[i] for i in idx], "rcase",
                                       "bad classify 0 cases", shard_size=40)
-        for j, bits in common.parse_bad(outs2):
+        for j, bits in parse_pairs(outs2):
             cls[idx[j]] = bits
     return impl, bad, cls
 
